@@ -71,7 +71,9 @@
 //!   `{"id":update_id,"kinds":[step variant names in order of first occurrence],"cp":[commitment
 //!   numbers of the counterparty commitment transactions the node's current monitor rebuilds from
 //!   the update; [] when the monitor is gone],"sec":[idx of every CommitmentSecret step]}`.
-//!   Updates of the channel open (before the trace starts) are not reported.
+//!   Updates of the channel open (before the trace starts) are not reported. `pend` = the update_ids
+//!   of that channel whose persistence is still in progress at the end of the step
+//!   (ChainMonitor::list_pending_monitor_updates).
 //! * flag close adds `mon_broadcast`: node's ChannelMonitor::broadcast_latest_holder_commitment_txn
 //!   on the still-open channel (the monitor signs and broadcasts its current holder commitment and
 //!   queues a HolderForceClosedWithInfo monitor event). args `"hold":bool` (or `"err":"no monitor"`).
@@ -85,6 +87,18 @@
 //!   ends (counting the mon_broadcast step itself). While a hold is active only deliver (ordinary and
 //!   injected), mon_complete, force_close of the held node and process_events happen; in particular
 //!   no disconnect (a forced one is postponed until after the release), reconnect or reload.
+//! * FOCUSED scenarios (2/3 of those with flag adv; `"focus":"<state>:<kind>"` in the R line, null
+//!   otherwise) aim ONE injected message of the given kind at ONE receiver state: 0 = not awaiting a
+//!   revocation, monitor update in progress; 1 = awaiting one, monitor update in progress with our
+//!   commitment_signed still pending on it; 2 = our stfu sent; 3 = quiescent; 4 = manager held after
+//!   a monitor-API broadcast; 5 = reconnected, no channel_reestablish yet; 6 = idle; 7 = awaiting, no
+//!   monitor update (0/1 become 6/7 without flag async, 4 becomes 5 without flag close; states 0-4
+//!   also require the peer to be connected and reestablished). Until the message has been delivered
+//!   nothing else is injected or corrupted, the scheduler steers towards the state (asynchronous
+//!   persistence kept on, stfu proposed, monitor-API broadcast, payments only started from rest for
+//!   the not-awaiting states) and the injection has weight 600 as soon as some node is in the state
+//!   and the message can be built; for the next 30 steps nothing else is injected or corrupted, then
+//!   the scenario goes on as an ordinary one.
 //! * stderr additionally has `held_deliveries` (deliver steps whose receiver was held) and
 //!   `release_while_locked` (`release` log entries of a node at or after a step in which that node
 //!   did mon_broadcast).
@@ -1390,15 +1404,19 @@ fn obs_json(w: &mut World, o: &Obs, n: usize) -> String {
 		Some(v) => w.view_json(&v),
 		None => "null".to_string(),
 	};
+	// ids of the observed channel's monitor updates whose persistence has not completed yet
+	let chan = w.chan_id;
+	let pend: Vec<String> = w.pending_updates(n).iter().filter(|(c, _)| *c == chan).map(|(_, id)| id.to_string()).collect();
 	format!(
-		"{{\"log\":{},\"view\":{},\"holder\":{},\"sent\":{},\"bcast\":{},\"closed\":{},\"mon\":{}}}",
+		"{{\"log\":{},\"view\":{},\"holder\":{},\"sent\":{},\"bcast\":{},\"closed\":{},\"mon\":{},\"pend\":{}}}",
 		jarr(&o.log),
 		view,
 		w.holder_json(n),
 		jarr(&o.sent),
 		jarr(&o.bcast),
 		jopt(&o.closed),
-		jarr(&o.mon)
+		jarr(&o.mon),
+		jarr(&pend)
 	)
 }
 
